@@ -2,6 +2,7 @@ package main
 
 import (
 	"fmt"
+	"regexp"
 	"strings"
 )
 
@@ -10,6 +11,9 @@ import (
 func init() { register("C13", runC13) }
 
 const segOpen, segClose = "\x1e", "\x1f"
+
+// glued: a dashed delimiter with no blank between it and the tag content
+var glued = regexp.MustCompile(`[^ \t\r\n\-]-[%}]}|\{[{%]-[^ \t\r\n\-]`)
 
 // markTags wraps every tag the printer emits in record separators so that the hand-trimmed
 // spelling can be computed from the same printing.
@@ -170,19 +174,56 @@ func respace(e *Env, ns []GNode) []GNode {
 	return append(out, NText{wsLit(e)})
 }
 
+// c13Filler returns literal text that lifts a template above the size at which Parse switches to the other
+// tokenizer (4096 bytes on the pinned tree; the filler alone is longer than twice that on purpose, so that a
+// moved threshold is still crossed). It starts and ends with a non-blank byte: no dash ever trims into it.
+func c13Filler(e *Env) string {
+	line := pick(e.Rng, []string{"<li>filler</li>\n", "<p>static paragraph of the page</p>\r\n", "plain words { with } lone % braces #\t", "x-y - z -- \n  "})
+	n := (8200+e.Rng.Intn(700))/len(line) + 1
+	return "<!" + strings.Repeat(line, n) + "!>"
+}
+
+// withFiller returns the top-level node list with one more literal chunk (the filler) at a random position:
+// in front of everything, between two statements, or behind everything.
+func withFiller(e *Env, nodes []GNode, filler string) []GNode {
+	at := e.Rng.Intn(len(nodes) + 1)
+	out := make([]GNode, 0, len(nodes)+1)
+	out = append(out, nodes[:at]...)
+	out = append(out, NText{filler})
+	return append(out, nodes[at:]...)
+}
+
+// c13Pads: what may stand between a delimiter (with or without dash) and the tag content. The empty pad glues
+// the content to the delimiter ({{ n-}}, {%-endif%}); tab and line break are blanks inside a tag like the space.
+var c13Pads = []string{" ", " ", "", "", "  ", "\t", "\n", " \r\n"}
+
 func runC13(e *Env) error {
 	r := e.Rep
-	r.Rule = "programs from the control-flow generator plus block/macro/import/from/include/extends/do/set/apply/verbatim tags, every literal chunk given whitespace runs at both ends; a random subset of delimiters gets a dash (systematically: each delimiter singly for every tag kind); " +
+	r.Rule = "programs from the control-flow generator plus block/macro/import/from/include/extends/do/set/apply/verbatim tags, every literal chunk given whitespace runs at both ends; a random subset of delimiters gets a dash (systematically: each delimiter singly for every tag kind); the blank between a delimiter and the tag content is drawn per side from none/space/tab/line break; " +
+		"every systematic case and one random case in five also with a literal filler that lifts the source above the large-template threshold (other tokenizer), in front of, between or behind the statements; " +
 		"oracle: render(dashed) = render(same template, dashes removed, that whitespace deleted by hand) and both parse alike (implementation-only), and the Lean pipeline on the dashed source; non-trivial = at least one dash next to non-empty whitespace; distinct by dashed source"
 	libs := map[string]string{
 		"partial": "<{{ n }}{{ p|default('-') }}>",
 		"lib":     "{% macro hi(x) %}hi {{ x }}{% endmacro %}{% macro two(a, b = 2) %}{{ a }}+{{ b }}{% endmacro %}",
 		"base":    "B[{% block content %}base{% endblock %}]",
 	}
-	check := func(nodes []GNode, ctx map[string]any, dashes func() bool, tag string) error {
-		ts := &TplStyle{Expr: canon, Dashes: dashes, Pad: func() string { return pick(e.Rng, []string{" ", " ", "", "  "}) }}
+	check := func(nodes []GNode, ctx map[string]any, dashes func() bool, tag string, big bool) error {
+		ts := &TplStyle{Expr: canon, Dashes: dashes, Pad: func() string { return pick(e.Rng, c13Pads) }}
+		filler := ""
+		if big {
+			filler = c13Filler(e)
+			nodes = withFiller(e, nodes, filler)
+			tag += "big:"
+		}
 		marked := markNodes(nodes, ts)
 		dashed, hand := splitMarked(marked)
+		// what a person reads in the report: the filler folded away
+		show := func(s string, n int) string {
+			if filler != "" {
+				s = strings.Replace(s, filler, fmt.Sprintf("<%d bytes of literal text>", len(filler)), 1)
+			}
+			return truncate(s, n)
+		}
 		tpls := map[string]string{"main": dashed}
 		tplsH := map[string]string{"main": hand}
 		for k, v := range libs {
@@ -206,8 +247,20 @@ func runC13(e *Env) error {
 			r.Hit("dash-next-to-whitespace")
 		}
 		r.Hit("class:" + iD.Class)
+		if big {
+			r.Hit("above-large-template-threshold")
+			if len(dashed) <= 4096 || len(hand) <= 4096 {
+				return fmt.Errorf("C13: the filler did not lift the pair above 4096 bytes (%d, %d)", len(dashed), len(hand))
+			}
+			if glued.MatchString(dashed) {
+				r.Hit("above-threshold:content-glued-to-dashed-delimiter")
+			}
+		}
+		if glued.MatchString(dashed) {
+			r.Hit("content-glued-to-dashed-delimiter")
+		}
 		if iD.Class != iH.Class || iD.Out != iH.Out {
-			r.Violate(Violation{Key: "dash-changes-more-than-whitespace", What: fmt.Sprintf("dashed %q and hand-trimmed %q differ: %q (%s) vs %q (%s)", truncate(dashed, 90), truncate(hand, 90), truncate(iD.Out, 60), iD.Class, truncate(iH.Out, 60), iH.Class),
+			r.Violate(Violation{Key: "dash-changes-more-than-whitespace", What: fmt.Sprintf("dashed %q and hand-trimmed %q differ: %q (%s %s) vs %q (%s)", show(dashed, 120), show(hand, 120), show(iD.Out, 60), iD.Class, truncate(iD.Msg, 80), show(iH.Out, 60), iH.Class),
 				Broken: "theorem C13_commutes / C13_parse_invariant no longer describes the code (implementation-only oracle)",
 				Replay: map[string]any{"kind": "dash-pair", "dashed_hex": hx(dashed), "hand_hex": hx(hand), "dashed": dashed, "hand": hand, "out_dashed": iD.Out, "out_hand": iH.Out, "class_dashed": iD.Class, "class_hand": iH.Class, "msg": iD.Msg}})
 		}
@@ -243,10 +296,12 @@ func runC13(e *Env) error {
 		probe := &TplStyle{Expr: canon, Dashes: func() bool { cnt++; return false }}
 		markNodes(nodes, probe)
 		for which := -1; which <= cnt && !r.Full(); which++ {
-			i := 0
-			w := which
-			if err := check(nodes, ctx, func() bool { i++; return w == cnt || i-1 == w }, fmt.Sprintf("k%d:", ki)); err != nil {
-				return err
+			for _, big := range []bool{false, true} {
+				i := 0
+				w := which
+				if err := check(nodes, ctx, func() bool { i++; return w == cnt || i-1 == w }, fmt.Sprintf("k%d:", ki), big); err != nil {
+					return err
+				}
 			}
 		}
 	}
@@ -290,8 +345,10 @@ func runC13(e *Env) error {
 					} else {
 						hand.WriteString(lead + wsL + pc.open)
 					}
-					dashed.WriteString(" " + pc.body + " ")
-					hand.WriteString(" " + pc.body + " ")
+					// the blank inside the tag, per side: none (content glued to the delimiter), space, tab, line break
+					inner := pick(e.Rng, c13Pads) + pc.body + pick(e.Rng, c13Pads)
+					dashed.WriteString(inner)
+					hand.WriteString(inner)
 					if dr {
 						dashed.WriteString("-")
 					}
@@ -333,7 +390,7 @@ func runC13(e *Env) error {
 		ctx := ctx0(g)
 		body := respace(e, g.Body(2, BodyOpts{Includes: []string{"partial"}}))
 		p := []float64{0.15, 0.5, 0.9}[e.Rng.Intn(3)]
-		if err := check(body, ctx, func() bool { return e.Rng.Float64() < p }, "r:"); err != nil {
+		if err := check(body, ctx, func() bool { return e.Rng.Float64() < p }, "r:", i%5 == 4); err != nil {
 			return err
 		}
 		if i < 2 {
